@@ -32,6 +32,8 @@ func init() {
 			{"C10.MAKEAPPEND", "zzControlBad_C10_MAKEAPPEND", true},
 			{"C10.MAKEAPPEND", "zzControlGood_C10_MAKEAPPEND", false},
 			{"C10.TABLEINDEX", "zzControlBad_C10_TABLEINDEX", true},
+			{"C10.STRBOUNDS", "zzControlBad_C10_STRBOUNDS", true},
+			{"C10.STRBOUNDS", "zzControlGood_C10_STRBOUNDS", false},
 			{"C10.TABLEINDEX", "zzControlGood_C10_TABLEINDEX", false},
 		},
 	})
@@ -43,6 +45,7 @@ func rulesC10(c *Ctx) {
 	c.Floor("C10.NILDEREF", 60)
 	ruleTerminalNil(c, "C10.TERMINALNIL")
 	ruleMakeThenAppend(c, "C10.MAKEAPPEND", "ast", "boltz", "objectz")
+	ruleStringBounds(c, "C10.STRBOUNDS", "ast", "zitiql")
 	ruleC10LexErr(c)
 	ruleC10Panic(c)
 	ruleC10NilRecv(c)
